@@ -79,6 +79,8 @@ def cases(seed, tier, broken=()):
         out.append({"cls": cls, "ops": ["fit0", "fit1", "scores", "components", "transform1", "inverse"]})
         out.append({"cls": cls, "ops": ["fit0", "transformN", "scores", "rotator", "scores", "components", "metrics", "serialize", "transform0"]})
     out.append({"cls": "EOF", "ops": ["fit0", "bootstrap", "scores", "components", "metrics"]})
+    for cls in CLASSES:
+        out.append({"cls": cls, "ops": ["fit0", "metrics", "compute", "scores", "metrics", "serialize", "components"]})
     for cls in ("EOF", "MCA", "SparsePCA", "EOF"):
         out.append({"cls": cls, "ops": ["fit4", "transformN", "scores", "inverse", "components", "transform4"]})
     out.append({"cls": "EOF", "ops": ["fit0", "fit3", "components", "fit2", "scores", "transform2"]})
@@ -101,6 +103,35 @@ def cases(seed, tier, broken=()):
                 for seq in itertools.product(alpha, repeat=L):
                     out.append({"cls": cls, "ops": ["fit0", *seq, "scores", "components"]})
     return out
+
+
+_NOT_QUERIES = {"fit", "fit_transform", "transform", "inverse_transform", "predict", "compute", "serialize", "deserialize", "save", "load", "get_params"}
+
+
+def all_queries(model):
+    """call every public accessor that needs no argument ("no sequence of queries … changes any later answer"); what they return or
+    refuse is not judged here, only what they leave behind"""
+    import inspect
+
+    n = 0
+    for name in sorted(dir(model)):
+        if name.startswith("_") or name in _NOT_QUERIES:
+            continue
+        f = getattr(model, name, None)
+        if not callable(f) or inspect.isclass(f):
+            continue
+        try:
+            sig = inspect.signature(f)
+        except (TypeError, ValueError):
+            continue
+        if any(p.default is inspect.Parameter.empty and p.kind in (p.POSITIONAL_ONLY, p.POSITIONAL_OR_KEYWORD, p.KEYWORD_ONLY) for p in sig.parameters.values()):
+            continue
+        try:
+            f()
+            n += 1
+        except Exception:  # noqa: BLE001
+            pass
+    return n
 
 
 def _op_p():
@@ -227,12 +258,15 @@ def run(case):
                 zoo.scores(cls, model)
             elif op == "metrics":
                 zoo.answers(cls, model)
+                all_queries(model)
             elif op == "compute":
                 if callable(getattr(model, "compute", None)):
                     model.compute()
             elif op == "serialize":
                 if callable(getattr(model, "serialize", None)):
-                    model.serialize()
+                    tree = model.serialize()
+                    if callable(getattr(type(model), "deserialize", None)):
+                        type(model).deserialize(tree)  # whatever was asked before, the object can still be stored and rebuilt
             elif op in ("rotator", "bootstrap"):
                 rot = None
                 if op == "rotator":
